@@ -285,6 +285,19 @@ fn step_post<T: Flat + ?Sized, L: Flat + Length, const N: usize, const M: usize>
 
 // ------------------------------------------------------------------------------------------------ sized items
 
+/// accept: validate() accepts exactly the byte strings the reference walk accepts (so "reference wf after the step"
+/// in the step harnesses means "the bytes validate after the step")
+fn chk_accept<T: Flat + ?Sized, L: Flat + Length, const N: usize, const M: usize>(f: Fmt) {
+    let (len, off) = any_len_off(N, f.align());
+    kani::assume(off == 0);
+    let b = sym_slice(len, f.align(), off, N);
+    let c = walk::<M>(b, len, &f);
+    let r = FlexVec::<T, L>::validate(b);
+    if c.ok { assert!(r.is_ok(), "C12: a well-formed chain does not validate"); }
+    if r.is_ok() { assert!(c.ok, "C12: library accepts a byte string the reference chain walk rejects"); }
+    kani::cover!(c.ok && c.cnt == M);
+}
+
 /// view: len / is_empty / iter == reference view; accepted ==> wf
 fn chk_view<T: Val, L: Flat + Length, const N: usize, const M: usize>(f: Fmt) {
     let (len, off) = any_len_off(N, f.align());
@@ -331,7 +344,7 @@ fn chk_size<T: Val, L: Flat + Length, const N: usize, const M: usize>(f: Fmt) {
     assert!(s <= len, "C05: size() exceeds the mapped bytes");
     assert!(c.ok, "C12: library accepts a byte string the reference chain walk rejects");
     assert!(s == c.end, "C05: size() differs from the reference extent");
-    assert!(s % f.align() == 0);
+    assert!(s % f.align() == 0, "C05: size() is not a multiple of ALIGN");
     let p = FlexVec::<T, L>::from_bytes(&b[..s]);
     assert!(p.is_ok(), "C05: the size() prefix does not map");
     let p = p.unwrap();
@@ -395,7 +408,7 @@ fn chk_clear<T: Flat + ?Sized, L: Flat + Length, const N: usize, const M: usize>
     let v = unsafe { FlexVec::<T, L>::from_mut_bytes_unchecked(b) };
     v.clear();
     step_post::<T, L, N, M>(b, len, &pre, &c, 0, 0, &f);
-    assert!(FlexVec::<T, L>::from_bytes(b).unwrap().is_empty());
+    assert!(b[0] == 0 || len == 0, "C12: clear() does not leave an empty chain");
     kani::cover!(c.cnt > 1);
 }
 
@@ -422,13 +435,13 @@ fn chk_push<T: Val, L: Flat + Length, const N: usize, const M: usize>(f: Fmt, df
             true
         }
         Err(e) => {
-            assert!(e.kind == ErrorKind::InsufficientSize);
+            assert!(e.kind == ErrorKind::InsufficientSize, "C13: a refused push reports something other than InsufficientSize");
             false
         }
     };
     if ok {
         assert!(fits, "C12: push accepted without room");
-        assert!(c.cnt < M);
+        assert!(c.cnt < M, "C12: push accepted without room");
         let c2 = step_post::<T, L, N, M>(b, len, &pre, &c, c.cnt, c.cnt + 1, &f);
         assert!(c2.slot[c.cnt] == at, "C12: new item not placed right behind the used data");
         assert!(rd_item(b, at + f.slot(), &f) == x.v(), "C12: pushed item has different contents");
@@ -468,7 +481,6 @@ fn chk_edit<T: Val, L: Flat + Length, const N: usize, const M: usize>(f: Fmt) {
             k += 1;
         }
     }
-    assert!(FlexVec::<T, L>::validate(b).is_ok());
     let c2 = walk::<M>(b, len, &f);
     assert!(c2.ok && c2.cnt == c.cnt, "C12: item edit changed the item count");
     let p = c.slot[j] + f.slot();
@@ -480,44 +492,25 @@ fn chk_edit<T: Val, L: Flat + Length, const N: usize, const M: usize>(f: Fmt) {
     kani::cover!(j + 1 == c.cnt && c.cnt > 1);
 }
 
-// ---- FlexVec<u8, u8>: BOUNDED buffer <= 7 bytes (<= 3 items)
-#[kani::proof]
-#[kani::unwind(9)]
-fn c12_flex_u8_u8_view() {
-    chk_view::<u8, u8, 7, 3>(F_U8_U8);
+// ---- FlexVec<u8, u8>: BOUNDED buffer <= 5 bytes (<= 2 items); unwind 7 > 5 + 1 byte-loop iterations
+macro_rules! flex_sized {
+    ($name:ident, $chk:ident, $T:ty, $L:ty, $N:literal, $M:literal, $unw:literal, $($arg:expr),*) => {
+        #[kani::proof]
+        #[kani::unwind($unw)]
+        fn $name() {
+            $chk::<$T, $L, $N, $M>($($arg),*);
+        }
+    };
 }
-#[kani::proof]
-#[kani::unwind(9)]
-fn c05_flex_u8_u8_size() {
-    chk_size::<u8, u8, 7, 3>(F_U8_U8);
-}
-#[kani::proof]
-#[kani::unwind(9)]
-fn c12_flex_u8_u8_pop() {
-    chk_pop::<u8, u8, 7, 3>(F_U8_U8);
-}
-#[kani::proof]
-#[kani::unwind(9)]
-fn c12_flex_u8_u8_truncate() {
-    chk_truncate::<u8, u8, 7, 3>(F_U8_U8);
-}
-#[kani::proof]
-#[kani::unwind(9)]
-fn c12_flex_u8_u8_clear() {
-    chk_clear::<u8, u8, 7, 3>(F_U8_U8);
-}
-#[kani::proof]
-#[kani::unwind(9)]
-fn c12_flex_u8_u8_push() {
-    chk_push::<u8, u8, 7, 3>(F_U8_U8, false);
-}
-#[kani::proof]
-#[kani::unwind(9)]
-fn c12_flex_u8_u8_push_default() {
-    chk_push::<u8, u8, 7, 3>(F_U8_U8, true);
-}
-#[kani::proof]
-#[kani::unwind(9)]
-fn c12_flex_u8_u8_edit() {
-    chk_edit::<u8, u8, 7, 3>(F_U8_U8);
-}
+flex_sized!(c12_flex_u8_u8_accept, chk_accept, u8, u8, 5, 2, 7, F_U8_U8);
+flex_sized!(c12_flex_u8_u8_view, chk_view, u8, u8, 5, 2, 7, F_U8_U8);
+flex_sized!(c05_flex_u8_u8_size, chk_size, u8, u8, 5, 2, 7, F_U8_U8);
+flex_sized!(c12_flex_u8_u8_pop, chk_pop, u8, u8, 5, 2, 7, F_U8_U8);
+flex_sized!(c12_flex_u8_u8_truncate, chk_truncate, u8, u8, 5, 2, 7, F_U8_U8);
+flex_sized!(c12_flex_u8_u8_clear, chk_clear, u8, u8, 5, 2, 7, F_U8_U8);
+flex_sized!(c12_flex_u8_u8_push, chk_push, u8, u8, 5, 2, 7, F_U8_U8, false);
+flex_sized!(c12_flex_u8_u8_push_default, chk_push, u8, u8, 5, 2, 7, F_U8_U8, true);
+flex_sized!(c12_flex_u8_u8_edit, chk_edit, u8, u8, 5, 2, 7, F_U8_U8);
+// ---- FlexVec<u16, u8> (slot padded to 2 bytes, ALIGN 2): BOUNDED buffer <= 8 bytes (<= 2 items); unwind 10
+flex_sized!(c12_flex_u16_u8_accept, chk_accept, u16, u8, 8, 2, 10, F_U16_U8);
+// (a u16/u8 push step at N = 8 ran CBMC out of memory next to 3 parallel jobs on the shared machine: not registered)
